@@ -37,6 +37,29 @@ func c1ClassifyRegion(src string) string {
 			region = r
 		}
 	}
+	// package-level variables and functions with named results
+	globals := map[string]bool{}
+	namedFn := map[string]bool{}
+	for _, d := range f.Decls {
+		switch x := d.(type) {
+		case *ast.GenDecl:
+			if x.Tok == token.VAR {
+				for _, sp := range x.Specs {
+					for _, id := range sp.(*ast.ValueSpec).Names {
+						globals[id.Name] = true
+					}
+				}
+			}
+		case *ast.FuncDecl:
+			if x.Type.Results != nil {
+				for _, fl := range x.Type.Results.List {
+					if len(fl.Names) > 0 {
+						namedFn[x.Name.Name] = true
+					}
+				}
+			}
+		}
+	}
 	ast.Inspect(f, func(n ast.Node) bool {
 		switch x := n.(type) {
 		case *ast.ForStmt:
@@ -134,6 +157,17 @@ func c1ClassifyRegion(src string) string {
 				}
 			}
 		case *ast.AssignStmt:
+			if x.Tok == token.ASSIGN && len(x.Rhs) == 1 {
+				if call, ok := c1Unparen(x.Rhs[0]).(*ast.CallExpr); ok {
+					if fid, ok := call.Fun.(*ast.Ident); ok && namedFn[fid.Name] {
+						for _, l := range x.Lhs {
+							if id, ok := l.(*ast.Ident); ok && globals[id.Name] {
+								set("named-result-alias")
+							}
+						}
+					}
+				}
+			}
 			if len(x.Lhs) == 2 && len(x.Rhs) == 1 {
 				if _, ok := c1Unparen(x.Rhs[0]).(*ast.IndexExpr); ok {
 					set("map-ok-miss")
